@@ -26,6 +26,9 @@ def run(ctx):
                       "capture 2")
     ctx.rule("R12-7", "the relative order of the other words is kept: positions recorded during a pass's scan are not used "
                       "after the token vector's length changed, except inside the one descending edit-list loop (E-EDITLIST)")
+    ctx.rule("R12-8", "`~` names the CURRENT home directory: the value expand_home splices in comes from a call of "
+                      "env::var(\"HOME\") made during this expansion (on every path of the helper that supplies it), not "
+                      "from a value remembered across calls (static / OnceLock / lazy)")
     ctx.rule("R12-4", "the home directory is not interpreted as a regex replacement template")
     for crate in ctx.crates:
         res = etag.run_sites(ctx, "R12-1", crate, fn_filter=lambda p: p in PASSES)
@@ -44,6 +47,7 @@ def run(ctx):
         n_ = editlist.rule(ctx, crate, "R12-7", PASSES)
         ctx.floor("R12-7", crate, "passes with a token vector", n_, 4)
         range_rule(ctx, crate)
+        home_current_rule(ctx, crate)
 
 
 def tag_rule(ctx, crate, b):
@@ -300,3 +304,45 @@ def range_rule(ctx, crate):
             okd = start_greater == (name == "descending")
         ctx.ob("R12-6", b.path, "%s loop runs exactly when start %s end" % (name, ">" if name == "descending" else "<="),
                okd, key="R12-6|%s|%s|selected" % (b.path, name), where=b.loc(h), crate=crate.kind)
+
+
+def _reads_home_every_time(crate, b, depth=0):
+    """every path from the entry of b to a return passes a call env::var("HOME") made in b itself, or a call of a
+    local function for which the same holds (closures do not count: get_or_init / Lazy run them once)"""
+    sites = set()
+    for bb, t, c in b.calls():
+        if mir.short(c) in ("std::env::var", "std::env::var_os") and const_str(b.call_args(bb)[0]) == "HOME":
+            sites.add(bb)
+        elif depth < 2:
+            ci = b.callee_info(t)
+            callee = (ci or {}).get("resolved") or c
+            cb = crate.fn(callee)
+            if cb is not None and cb.kind == "fn" and cb.path != b.path and _reads_home_every_time(crate, cb, depth + 1):
+                sites.add(bb)
+    rets = {bb for bb in b.reachable if b.term(bb)["k"] == "return"}
+    return bool(sites) and bool(rets) and flow.must_pass(b, 0, sites, rets)
+
+
+def home_current_rule(ctx, crate):
+    b = crate.fn("shell::expand_home")
+    if not ctx.require(b is not None, "R12-8", "R12-8|anchor", "shell::expand_home not found"):
+        return
+    suppliers = []
+    for bb, t, c in b.calls():
+        ci = b.callee_info(t)
+        callee = (ci or {}).get("resolved") or c
+        cb = crate.fn(callee)
+        if cb is not None and cb.kind == "fn" and "String" in cb.locals[0]["ty"] and cb.arg_count == 0:
+            suppliers.append((bb, cb))
+        if mir.short(c) in ("std::env::var", "std::env::var_os") and const_str(b.call_args(bb)[0]) == "HOME":
+            suppliers.append((bb, None))
+    if not ctx.require(bool(suppliers), "R12-8", "R12-8|%s|supplier" % b.path,
+                       "cannot find where expand_home gets the home directory from", b.path):
+        return
+    for bb, cb in suppliers:
+        ok = True if cb is None else _reads_home_every_time(crate, cb)
+        name = "env::var(\"HOME\")" if cb is None else cb.path
+        ctx.ob("R12-8", b.path, "%s reads HOME from the environment on every call" % name, ok,
+               key="R12-8|%s|home-read-each-time|%s" % (b.path, name), where=b.loc(bb), crate=crate.kind,
+               detail=None if ok else "after `export HOME=/elsewhere` (or HOME=... in the session) `~` still names the directory "
+               "that was current when the value was first asked for")
